@@ -70,6 +70,7 @@ func GenPool(seed int64, n int, tier string, w *bufio.Writer) {
 const poolWatchdog = 90 * time.Second
 
 type poolRun struct {
+	why      string
 	hung     bool
 	e        *engine
 	doneIDs  map[int]bool
@@ -79,11 +80,18 @@ type poolRun struct {
 	lines    []string
 }
 
+// workersParkedInReservation counts the goroutines that are WAITING for memory right now: parked in the
+// select of MessageQueue.AllocateAndBuildMessage (top frame), not merely passing through it
 func workersParkedInReservation() (workers int, manager bool) {
 	buf := make([]byte, 4<<20)
 	n := runtime.Stack(buf, true)
 	for _, g := range strings.Split(string(buf[:n]), "\n\n") {
-		if !strings.Contains(g, "AllocateAndBuildMessage") {
+		lines := strings.Split(g, "\n")
+		if len(lines) < 2 || !strings.Contains(lines[0], "[select") {
+			continue
+		}
+		if !strings.Contains(lines[1], "messagequeue.(*MessageQueue).AllocateAndBuildMessage") &&
+			!strings.Contains(lines[1], "messagequeue.(*MessageQueue).TryAllocateAndBuildMessage") {
 			continue
 		}
 		if strings.Contains(g, "taskqueue.(*WorkerTaskQueue).worker") {
@@ -167,12 +175,15 @@ func runPoolOnce(c reg.Case, stalled bool) *poolRun {
 					}
 				}
 				if all {
+					pr.why = "all"
 					break
 				}
 				if stalled && e.waitingFor(0) >= W {
+					pr.why = "waiting"
 					break
 				}
 				if _, mgr := workersParkedInReservation(); mgr && stalled {
+					pr.why = "mgr"
 					break
 				}
 				timedOut := false
@@ -187,7 +198,14 @@ func runPoolOnce(c reg.Case, stalled bool) *poolRun {
 				}
 			}
 			watchdogT.Stop()
-			pr.parkedWk, pr.mgrPark = workersParkedInReservation()
+			// a goroutine that has just registered its reservation may not be parked yet: let it get there
+			for i := 0; i < 200; i++ {
+				pr.parkedWk, pr.mgrPark = workersParkedInReservation()
+				if !stalled || pr.mgrPark || pr.parkedWk >= W || e.waitingFor(0) < W {
+					break
+				}
+				runtime.Gosched()
+			}
 			served := 0
 			for _, id := range pr.others {
 				if pr.doneIDs[id] {
